@@ -27,4 +27,6 @@ def sortNats (l : List Nat) : List Nat := (l.toArray.qsort (· < ·)).toList
 
 def commaNats (s : String) : List Nat := if s = "-" || s = "" then [] else (s.splitOn ",").filterMap String.toNat?
 
+def plusList (s : String) : List Nat := if s = "" || s = "-" then [] else (s.splitOn "+").filterMap String.toNat?
+
 end Driver
